@@ -19,7 +19,8 @@ from harness.project import to_grid
 
 QUERIES = ["unit_cell_atoms", "slab", "unit_cell_connectivity", "unit_cell_molecules", "symmetry_unique_molecules",
            "atoms_in_radius", "atomic_surroundings", "molecule_environments", "density", "to_cif_string",
-           "to_shelx_string", "to_poscar_string", "as_P1", "cartesian_symmetry_operations"]
+           "to_shelx_string", "to_poscar_string", "as_P1", "cartesian_symmetry_operations", "as_P1_supercell",
+           "to_translational_symmetry", "molecular_shell"]
 CORE = ["unit_cell_atoms", "unit_cell_connectivity", "unit_cell_molecules", "symmetry_unique_molecules",
         "molecule_environments", "density", "to_cif_string", "to_shelx_string"]
 
@@ -236,6 +237,12 @@ def canon(q, cr, nf, u):
         return _crystal_summary(Crystal.from_vasp_string(cr.to_poscar_string()), nf, u)
     if q == "as_P1":
         return _crystal_summary(cr.as_P1(), nf, u)
+    if q == "as_P1_supercell":
+        return _crystal_summary(cr.as_P1_supercell((2, 1, 1)), 2 * nf, u)
+    if q == "to_translational_symmetry":
+        return _crystal_summary(cr.to_translational_symmetry(supercell=(1, 2, 1)), 2 * nf, u)
+    if q == "molecular_shell":
+        return sorted(sorted(zip(_g(cr, m.positions, nf), map(int, m.atomic_numbers))) for m in cr.molecular_shell(mol_idx=0, radius=3.5))
     if q == "cartesian_symmetry_operations":
         return sorted([[round(float(x), 6) + 0.0 for x in np.asarray(r).ravel()], [round(float(x), 6) + 0.0 for x in t]]
                       for r, t in cr.cartesian_symmetry_operations())
